@@ -112,6 +112,11 @@ func tryReplay(p *Program, o *Obl, repo string) (string, bool) {
 		return "no replay: encoding not available", false
 	}
 	script := enc.script(o)
+	backend := o.Backend
+	if o.Relaxed != "" {
+		script = o.Relaxed
+		backend = o.RelaxedBackend
+	}
 	dir, _ := os.MkdirTemp("", "rtv-replay-")
 	defer os.RemoveAll(dir)
 	var params []replayParam
@@ -130,6 +135,39 @@ func tryReplay(p *Program, o *Obl, repo string) (string, bool) {
 		}
 		params = append(params, replayParam{prm.Name(), prm.Type(), term})
 	}
+	// prefer a small model: re-solve with length bounds on slice/string parameters
+	for _, bound := range []int{8, 64, 1024} {
+		extra := ""
+		for _, pr := range params {
+			switch pr.typ.Underlying().(type) {
+			case *types.Slice:
+				extra += fmt.Sprintf("(assert (<= (s-len %s) %d))\n", pr.term, bound)
+			case *types.Basic:
+				if isString(pr.typ) {
+					extra += fmt.Sprintf("(assert (<= (slen %s) %d))\n", pr.term, bound)
+				}
+			}
+		}
+		if extra == "" {
+			break
+		}
+		cand := strings.Replace(script, "(check-sat)\n", extra+"(check-sat)\n", 1)
+		file := filepath.Join(dir, "small.smt2")
+		os.WriteFile(file, []byte(cand), 0644)
+		var sv Solver
+		for _, x := range solvers {
+			if x.Name == backend {
+				sv = x
+			}
+		}
+		if sv.Name == "" {
+			sv = solvers[0]
+		}
+		if r := runSolver(sv, 10, file); r.result == "sat" {
+			script = cand
+			break
+		}
+	}
 	// phase 1: scalars and lengths
 	var q []string
 	for _, pr := range params {
@@ -144,7 +182,7 @@ func tryReplay(p *Program, o *Obl, repo string) (string, bool) {
 			}
 		}
 	}
-	vals := getValues(script, q, o.Backend, dir)
+	vals := getValues(script, q, backend, dir)
 	var q2 []string
 	lens := map[string]int{}
 	clamped := false
@@ -177,7 +215,7 @@ func tryReplay(p *Program, o *Obl, repo string) (string, bool) {
 			}
 		}
 	}
-	vals2 := getValues(script, q2, o.Backend, dir)
+	vals2 := getValues(script, q2, backend, dir)
 	// build the test
 	var body strings.Builder
 	var callArgs []string
